@@ -29,6 +29,7 @@ struct Ctx {
   std::atomic<int> signal{0};                       // bumped on every enqueue (owner may wait on it)
   int running = 0;                                  // >0 while an operation of this context executes
   int enqueued = 0, executed = 0;
+  int ops_constructed = 0, ops_destroyed = 0;       // schedule operations of this context (lifetime accounting)
 
   void enqueue(OpBase* op) {
     op->next = nullptr;
@@ -65,7 +66,8 @@ struct Ctx {
 template <typename Receiver>
 struct SchedOp : Ctx::OpBase {
   Ctx* ctx; Receiver r;
-  SchedOp(Ctx* c, Receiver&& rr) : ctx(c), r(std::move(rr)) { this->run = &SchedOp::run_impl; }
+  SchedOp(Ctx* c, Receiver&& rr) : ctx(c), r(std::move(rr)) { this->run = &SchedOp::run_impl; ++c->ops_constructed; }
+  ~SchedOp() { ++ctx->ops_destroyed; }
   SchedOp(SchedOp&&) = delete;
   static void run_impl(Ctx::OpBase* b) noexcept {
     auto* self = static_cast<SchedOp*>(b);
